@@ -330,6 +330,7 @@ pub fn spec_c07() -> PropSpec {
     pf.max_steps = 44;
     pf.min_steps = 10;
     pf.coarse_hash_pct = 40;
+    pf.sym_hash_pct = 30;
     PropSpec {
         id: "C07",
         profile: pf,
